@@ -87,11 +87,11 @@ CHECKS = {
         "title": "Vesting module account is always exactly backed by its pools",
         "level": "exploration",
         "technique": "stateful property-based testing (rapid state machine over the vesting message grammar); invariant oracle after every message, state-digest comparison for rejected messages",
-        "tests": [T("TestC05", 500, 2500, qshards=2, steps=65), T("TestC05Restart", 40, 150, qshards=2, timeout=900)],
-        "rule": "TestC05Restart: generated genesis and 4-14 blocks of signed transactions on the ABCI chain (as C11), the node process restarting (new application instance over the same database) after a block one time in four; module balance == sum over pools after every block and after every restart. TestC05: cases = 1-4 generated vesting types (free fraction from a boundary pool, lockup/vesting 0s..3y) + 0-6 seeded pools + a rapid state machine (avg 50 steps) over create-pool / send-to-vesting-account / withdraw-all / create-vesting-account / split / move / move-by-denoms / advance-time (to lock-end-1ns, lock end, +1ns, or by 1ns..1y), arguments drawn relative to the current state (existing and missing pools and types, amount in {0, 1, remainder, remainder+1, -1, random}, recipient in {fresh, existing, self, blocked module}). "
+        "tests": [T("TestC05", 500, 2500, qshards=2, steps=75), T("TestC05Restart", 40, 150, qshards=2, timeout=900), T("TestC05Upgrade", 300, 1500)],
+        "rule": "TestC05Upgrade: generated pre-upgrade states (the C16 generator: owners, pools in the version-2 store format with sent / withdrawn histories, the hard-coded owner / pool / type present or absent) taken through the v1.2.0 upgrade (keeper-level steps or the real handler); afterwards module balance == sum over pools and the per-pool bounds. TestC05Restart: generated genesis and 4-14 blocks of signed transactions on the ABCI chain (as C11), the node process restarting (new application instance over the same database) after a block one time in four; module balance == sum over pools after every block and after every restart. TestC05: cases = 1-4 generated vesting types (free fraction from a boundary pool, lockup/vesting 0s..3y) + 0-6 seeded pools + a rapid state machine (avg 50 steps) over create-pool / send-to-vesting-account / withdraw-all / create-vesting-account / split / move / move-by-denoms / advance-time (to lock-end-1ns, lock end, +1ns, or by 1ns..1y), arguments drawn relative to the current state (existing and missing pools and types, amount in {0, 1, remainder, remainder+1, -1, random}, recipient in {fresh, existing, self, blocked module}). "
                 "Non-trivial = history contains an accepted send, a withdrawal that paid after a lock end, and a rejected message. Distinct = SHA-256 of the operation history.",
         "min_nontrivial_fraction": 0.2,
-        "min_class_fraction": {"rejected_after_implicit_withdraw": 0.05, "accepted_send": 0.3, "withdraw_paid": 0.3},
+        "min_class_fraction": {"rejected_after_implicit_withdraw": 0.04, "accepted_send": 0.2, "withdraw_paid": 0.25, "solvency_across_the_upgrade": 0.15},
         "level_text": "Every message is executed with baseapp's per-message semantics (ValidateBasic, registered handler on a cache-wrapped context, written only on success) against the real app; after every step: module balance == sum over pools of (initially locked - sent - withdrawn), per-pool bounds, the three registered invariants, pool ledger deltas exactly as the accepted message implies, and for a rejected message a digest over every key/value of the cfevesting, bank, auth, staking and distribution stores is unchanged.",
         "level_note": "Trusted: baseapp semantics as re-implemented in RunMsg (world.go) - identical to runMsgs for single-message transactions. Bounds: 3 owners, <= ~100 steps, amounts <= 10^22 (owners hold 10^24).",
         "design_ref": "DESIGN.md §5 C05",
@@ -100,7 +100,7 @@ CHECKS = {
         "title": "Pool time-lock: nothing is withdrawable before lock end, all of it once after",
         "level": "exploration",
         "technique": "stateful property-based testing (rapid state machine) with a pre/post oracle on every withdrawal and send, boundary-biased block times, query/transaction agreement",
-        "tests": [T("TestC06", 500, 2500, qshards=2, steps=65)],
+        "tests": [T("TestC06", 500, 2500, qshards=2, steps=75)],
         "plain_tests": ["TestRegressSpelling"],
         "rule": "cases = as C05 (owner, recipient and query addresses are spelled in lower or, one time in five, in upper case bech32; governance proposals to change the vesting denomination are part of the histories once pools exist); block time is moved to lock-end-1ns / lock end / lock-end+1ns of existing pools two times out of three. Oracle on every withdraw-all: owner balance delta == sum of (locked remainder) over pools with now >= lock end == response, every other pool untouched, an immediate second withdrawal pays 0, the VestingPools query's withdrawable / currently_locked / sent_amount per pool equal what the same-block withdrawal paid and the ledger; on every send: locked pools lose coins only through their sent counter and only into a previously absent address that is now a continuous vesting account holding exactly that amount. "
                 "Non-trivial = a withdrawal was evaluated for an owner having both a matured and a still locked pool. Distinct = SHA-256 of the history.",
@@ -114,7 +114,7 @@ CHECKS = {
         "title": "New vesting accounts get exactly the documented amount and schedule",
         "level": "exploration",
         "technique": "stateful property-based testing (rapid) with an exact-rational oracle for the vested part and the documented schedule rules",
-        "tests": [T("TestC08", 600, 3000, qshards=2, steps=70)],
+        "tests": [T("TestC08", 600, 3000, qshards=2, steps=80)],
         "rule": "cases = as C05; the vesting types are installed through the module's real genesis import, each period stated as value and unit with the unit drawn among those that divide it. Oracle on every accepted pool send: recipient did not exist before, is a ContinuousVestingAccount holding exactly the amount, original vesting == floor(amount*(1-free)) computed with big.Rat, start/end == (now+lockup, now+lockup+vesting) for restart or (lock end, lock end) otherwise (unix seconds), the pool's sent counter grew by exactly the amount, other pools changed only by the implicit withdrawal; a send above the pool's remaining locked amount or to an existing address must be rejected. On direct creation: sender -coins, recipient +coins, original vesting == coins, given start/end. "
                 "Non-trivial = an accepted send whose free part amount*free is not an integer, or an accepted send of exactly the pool's remainder. Distinct = SHA-256 of the history.",
         "min_nontrivial_fraction": 0.08,
@@ -208,11 +208,11 @@ CHECKS = {
         "title": "Only governance changes parameters, and stored parameters stay valid",
         "level": "exploration",
         "technique": "stateful property-based testing (rapid state machine) over the seven parameter-update messages x authority strings x valid / mutated / partially valid payloads; invariant + exact-effect oracle after every step",
-        "tests": [T("TestC13", 400, 2000, qshards=2, steps=40), T("TestC13ABCI", 40, 300, tshards=4)],
+        "tests": [T("TestC13", 400, 2000, qshards=2, steps=40), T("TestC13ABCI", 40, 300, tshards=4), T("TestC13Upgrade", 300, 1500)],
         "rule": "cases = generated valid minter and distributor configurations, in one world out of three 1-3 owner records without pools imported through the vesting genesis import, then a rapid state machine (avg 40 steps): blocks (the minter's current period advances), pool creation, minter MsgUpdateParams / MsgUpdateMintersParams (valid around the current period, or one of 10 invalidating mutations; denomination from {uc4e, uatom, '', x}), distributor MsgUpdateParams (valid or one of 5 mutations), MsgUpdateSubDistributorParam (a drawn sub-distributor under an existing or unknown name - individually valid, possibly breaking the whole-configuration ordering rule), destination-share and burn-share updates (pool values, values making the sum >= 1, out-of-range values, unknown names), MsgUpdateDenomParam; authority drawn from {gov x3, a user, a module address, '', garbage}. Real path: ValidateBasic then the registered handler with baseapp semantics. "
                 "After every step: the stored parameters of the three modules validate, the minter's current period is in the stored configuration, a non-governance authority is rejected, a rejected message leaves all three parameter sets byte-identical, an accepted message stores exactly its documented effect (full replacement / minters+start / one sub-distributor / one share / one burn share / denomination), the vesting denomination never changes while pools exist. Non-trivial = a rejected update after at least two accepted partial updates. Distinct = SHA-256 of the history.",
         "min_nontrivial_fraction": 0.2,
-        "min_class_fraction": {"non_gov_authority": 0.5, "invalid_minter_payload": 0.2, "invalid_distributor_payload": 0.2, "some_update_accepted": 0.5},
+        "min_class_fraction": {"non_gov_authority": 0.35, "invalid_minter_payload": 0.15, "invalid_distributor_payload": 0.15, "some_update_accepted": 0.35, "parameters_across_the_upgrade": 0.15},
         "level_text": "Sequences of full and partial updates are applied through the registered handlers and the stored parameters are compared, as canonical JSON, with the documented effect of each accepted message and with the unchanged pre-state for each rejected one.",
         "level_note": "TestC13ABCI adds the transaction level: every one of the seven update messages in a transaction signed by a user key, with the user's or the governance address as authority, must be rejected (ValidateBasic / handler / signature verification) and leave all parameters unchanged.",
         "design_ref": "DESIGN.md §5 C13",
